@@ -13,7 +13,7 @@
    [sqrtf] is np.sqrt: any function with the defining property of the square root. *)
 From Coq Require Import Reals List Bool.
 From Verif Require Import Base.Num Base.Vec Base.VecR C08.Model C08.VecLemmas C08.Rules C08.Proofs
-  C08.ProxRules C08.Moreau.
+  C08.ProxRules C08.Moreau C08.GradEq.
 Import ListNotations.
 Local Open Scope R_scope.
 
@@ -65,3 +65,19 @@ Example D_example :
   let e : fxR := FLeft 2 (FTransl (FSep2 1 (FHuber 1) (FRight (-3) (FLp P2))) [1; 0; 2]) in
   wf 3 e /\ D e /\ (exists p, prox sqrt e [1; 2; 2] (1 / 2) [0; 1; 1] = Ok p).
 Proof. exact D_example_proof. Qed.
+
+(* T1  Equality in Fenchel-Young at the gradient, for EVERY expression tree: whenever the library
+   can evaluate grad f(x), f(x) and f.convex_conj(grad f(x)),
+       f(x) + f.convex_conj(grad f(x)) = <x, grad f(x)>_w      (both values finite).
+   Gradients modelled: L1 (sign), L2 (x/|x|, 0 at 0), L2^2, Constant, Huber, QuadraticForm(scaling) and the
+   rules of Left/RightScalarMult, RightVectorMult, ScalarSum, Translation, QuadraticPerturb,
+   BregmanDistance, SeparableSum. *)
+Theorem fenchel_young_equality_at_gradient :
+  forall (sqrtf : R -> R), (forall a, 0 <= a -> 0 <= sqrtf a /\ sqrtf a * sqrtf a = a) ->
+  forall (e e' : fxR) (n : nat) (w x g : list R) (vx vg : extR),
+  wf n e -> wpos w -> length w = n -> length x = n ->
+  grad sqrtf e w x = Ok g -> value sqrtf 0 e w x = Ok vx ->
+  cconj w e = Ok e' -> value sqrtf 0 e' w g = Ok vg ->
+  eadd vx vg = EFin (wdot w x g).
+Proof. exact grad_equality_tree. Qed.
+Print Assumptions fenchel_young_equality_at_gradient.
